@@ -133,6 +133,10 @@ def run(ctx):
         want = {1: (T_SSL, 'ProtocolSSL'), 2: (T_NLA, 'ProtocolHybrid')}
         rec = unwrap_cast(client[3][1]) if client[0] == 'call' and len(client[3]) > 1 else ('unknown',)
         recname = rec[2] if rec[0] == 'agg' else None
+        if recname is None and is_sel(rec) and armv is not None:
+            # the client records the selected value itself (`Client::new(transport, selected_protocol)` after the match): on this path it is the
+            # value of the arm taken
+            recname = {d_: n_ for n_, d_ in P.enum_variants('core::x224::Protocols')}.get(armv)
         arms.add(armv)
         ctx.check(armv in want and tls[0][1].callee == want[armv][0] and recname == want[armv][1], 'R02.1', key + ':arm',
                   'selected value %s dispatches to %s and is recorded as %s' % (armv, tls[0][1].callee.rsplit('::', 1)[-1], recname),
